@@ -3,7 +3,12 @@ CFG = {
     "theorems": [
         "Parsley.C11.resolve_fuel_sufficient", "Parsley.C11.dom_terminates", "Parsley.C11.dom_never_panics",
     ],
-    "partial": {},
+    "partial": {
+        "dom_records_reachable_once (NOT PROVED)": "keys of dom.pages = BFS-discovered set of the spec, each once; decided per run by the oracle (Spec/PageTree.discover) on every case, not by a theorem",
+        "dom_resources_nearest (NOT PROVED)": "page resources = nearest declaring node on the discovery path; oracle-checked only",
+        "dom_contents_in_order (NOT PROVED)": "contents = dereferenced /Contents in document order; needs resolveChain = hop-bounded deref (pigeonhole); oracle-checked only",
+        "dom_error_or_complete (NOT PROVED)": "error iff some discovered object is defective; oracle-checked only",
+    },
     "n": {"quick": 2500, "thorough": 60000},
     "exhaustive": {"quick": False, "thorough": True},
     "shrink": False,
@@ -27,5 +32,10 @@ LEVEL = {
     "design_ref": "DESIGN.md 3.C11",
     "technique": "Lean 4 theorems over an executable model of to_page_dom (work queue, examined set, iterative resolve_chain) "
                  "+ differential correspondence with the real to_page_dom on generated page trees, judged by a declarative BFS spec",
-    "text": "placeholder",
+    "text": "Machine-checked for ALL object graphs and catalogs: the model of the fixed to_page_dom never panics "
+            "(q.next().unwrap() unreachable), resolve_chain follows at most |defs| links and the work loop runs at most |defs|+1 "
+            "times (fuel-independence beyond |defs|+1, via the measure queue length + definitions not yet examined), so DOM "
+            "construction terminates on cyclic/shared /Kids and looping reference chains. Exactly-once recording, nearest-ancestor "
+            "resources and content order are NOT proved; they are decided on every run by an independent declarative BFS spec "
+            "(oracle) against the real to_page_dom, with an impl-vs-model correspondence on full DOM observables.",
 }
